@@ -1,8 +1,11 @@
 package main
 
 import (
+	"go/constant"
+
 	"fmt"
 	"go/types"
+	"golang.org/x/tools/go/ssa"
 	"sort"
 	"strings"
 )
@@ -647,6 +650,50 @@ func initStubs() {
 		}
 		fail("ClosureVar: closure %s has no captured variable %s", f.Fn.Name(), name)
 		return Ptr{}
+	}
+	// FuncMapEntry(parent, key): the function literal that `parent` stores under the constant string key `key` in a
+	// map (a template.FuncMap built inside parent) — gives harnesses access to helper closures that have no name.
+	// The entry is looked up in parent's SSA on every run (MapUpdate with a constant key).
+	stubTable[zzp+"FuncMapEntry"] = func(e *Exec, st *State, fn *Func, args []Value, site string) []Outcome {
+		iv := args[0].(Iface)
+		f, ok := iv.V.(*Func)
+		if !ok || f == nil || f.Fn == nil {
+			fail("FuncMapEntry: first argument is not a function")
+		}
+		key := args[1].(*Term)
+		if !key.IsConst() {
+			fail("FuncMapEntry: key must be constant")
+		}
+		var found *ssa.Function
+		for _, b := range f.Fn.Blocks {
+			for _, in := range b.Instrs {
+				mu, ok := in.(*ssa.MapUpdate)
+				if !ok {
+					continue
+				}
+				kc, ok := mu.Key.(*ssa.Const)
+				if !ok || kc.Value == nil || kc.Value.Kind() != constant.String || constant.StringVal(kc.Value) != key.S {
+					continue
+				}
+				v := mu.Value
+				if mi, ok := v.(*ssa.MakeInterface); ok {
+					v = mi.X
+				}
+				switch fv := v.(type) {
+				case *ssa.Function:
+					found = fv
+				case *ssa.MakeClosure:
+					if len(fv.Bindings) == 0 {
+						found = fv.Fn.(*ssa.Function)
+					}
+				}
+			}
+		}
+		if found == nil {
+			fail("FuncMapEntry: %s stores no capture-free function literal under key %q", f.Fn.Name(), key.S)
+		}
+		e.stubsUsed["helper closure "+found.String()+" taken from the function map of "+f.Fn.String()] = true
+		return ret(st, Iface{T: found.Signature, V: &Func{Fn: found}})
 	}
 	stubTable[zzp+"SetClosureInt"] = func(e *Exec, st *State, fn *Func, args []Value, site string) []Outcome {
 		e.store(st, closureCell(e, st, args), args[2])
